@@ -7,6 +7,8 @@
 //   invsweep: cases "A n desc" -> all n-1 one-inversion inputs sorted in an arena of A slots; prints number left unsorted and the first position
 //   pretest : cases "P n" -> sorted input of size n, comparator logs compared pairs; prints sorted list of (i) for pairs (i,i+1)
 #include "common.h"
+#include <array>
+#include <random>
 #include <memory>
 #include <mutex>
 #include <algorithm>
@@ -192,6 +194,28 @@ int main(int argc, char** argv) {
             for (long i : adj) o.put(i);
             bool same = true; for (long i = 0; i < n; ++i) if (v[i] != i) same = false;
             o.word(same ? "KEPT" : "CHANGED");
+        } else if (m == "prefixsweep") {
+            // A n seed: inputs whose elements from index 9 on are already non-decreasing (with ties) and whose first ten elements run over EVERY non-increasing sequence
+            // of {0,1,2,3} plus 400 seeded random sequences of {0..3}: ties and descents inside the part that the serial 10-element probe looks at
+            int A = (int)c[0]; long n = (long)c[1]; unsigned seed = (unsigned)c[2];
+            long bad = 0, firstbad = -1, count = 0;
+            auto body = [&] {
+                std::vector<std::array<int, 10>> prefixes;
+                for (int a = 0; a <= 10; ++a) for (int b = a; b <= 10; ++b) for (int d = b; d <= 10; ++d) {     // positions where the value drops 3->2, 2->1, 1->0
+                    std::array<int, 10> p; for (int i = 0; i < 10; ++i) p[i] = i < a ? 3 : i < b ? 2 : i < d ? 1 : 0; prefixes.push_back(p); }
+                std::mt19937 r(seed); for (int k = 0; k < 400; ++k) { std::array<int, 10> p; for (auto& x : p) x = (int)(r() % 4); prefixes.push_back(p); }
+                for (auto& p : prefixes) for (int keyed = 0; keyed < 2; ++keyed) {
+                    std::vector<long> v(n); for (int i = 0; i < 10; ++i) v[i] = p[i];
+                    for (long i = 10; i < n; ++i) v[i] = p[9] + (i - 10) / 40;
+                    std::vector<long> want = v; std::sort(want.begin(), want.end());
+                    if (keyed) { for (long i = 0; i < n; ++i) v[i] = v[i] * 8 + (i % 8); tbb::parallel_sort(v.begin(), v.end(), [](long x, long y) { return x / 8 < y / 8; }); for (auto& x : v) x /= 8; }
+                    else tbb::parallel_sort(v.begin(), v.end());
+                    if (v != want) { if (!bad) firstbad = count; bad++; }
+                    count++; wd.epoch++;
+                }
+            };
+            if (A > 0) { tbb::task_arena ar(A); ar.execute(body); } else body();
+            o.put(bad); o.put(firstbad); o.put(count);
         } else if (m == "invsweep") {
             // A n desc: every input that is sorted except for ONE exchanged adjacent pair must come out sorted (arena of A slots, 0 = default arena)
             int A = (int)c[0]; long n = (long)c[1]; bool desc = c[2] != 0;
